@@ -360,6 +360,11 @@ def run(ctx):
     ctx.fixture("R20.4", "shared_buffer", g is not None and bool(static_locals(g)), True, "static/thread_local storage recognised")
     if not n:
         ctx.ok("R20.4", "nitro::lang", "no-shared-storage", "%d functions scanned" % len(pats), "-")
+    # ---- R20.5: the library's own container hands the adaptors correct range bounds
+    ctx.rule("R20.5", "fixed_vector's (c)(r)begin/(c)(r)end delimit exactly its elements (R06.9 re-evaluated): enumerate/reverse over it visit each element once")
+    if ctx.prop == "C20":
+        from .common import share
+        share(ctx, "C06", ("R06.9",), "R20.5", "iterator accessor obligations shared with C06", 12)
     ctx.assume("iteration over user-defined iterators with exotic operator!= is outside the claim")
     ctx.trust("range-based for keeps the range expression's temporary alive for the whole loop (Appendix D.7)")
 
